@@ -70,7 +70,7 @@ func (fr *frame) call(c *ssa.CallCommon, site *ssa.Call, st *State) TV {
 		}
 	}
 	// ---- call-site assertions of the function under verification ----
-	if fr.isTop && s.FC != nil && len(s.FC.Ats) > 0 && site != nil {
+	if fr.env0 != nil && s.FC != nil && len(s.FC.Ats) > 0 && site != nil {
 		fr.atAsserts(key, site, args, c, st)
 	}
 	// ---- contract ----
@@ -188,9 +188,7 @@ func (fr *frame) canInline(callee *ssa.Function, isClosure bool) bool {
 			return false
 		}
 	}
-	if callee.Recover != nil {
-		return false
-	}
+	// (functions with defers have a Recover block; panics are not modelled, so it is ignored)
 	inRepo := callee.Parent() != nil || (callee.Pkg != nil && IsRepoPath(callee.Pkg.Pkg.Path()))
 	if !inRepo {
 		return false
@@ -463,8 +461,26 @@ func (fr *frame) havocPointee(av ssa.Value, a TV, st *State) {
 		t = mi.X.Type()
 		ref = fr.val(mi.X, st).T
 	} else if a.S == "Iface" {
-		s.note("%s: pointee of interface-typed argument unknown: all modelled state havocked", FuncKey(fr.fn))
-		s.havoc(st, []string{ModStar}, "modarg")
+		// dynamic type unknown: every field of the object at that reference may change
+		s.note("%s: pointee of interface-typed argument of unknown dynamic type: all fields of that object havocked", FuncKey(fr.fn))
+		s.havocs++
+		ref := "(ival " + a.T + ")"
+		var keys []string
+		for k := range st.Maps {
+			if strings.HasPrefix(k, "F:") {
+				keys = append(keys, k)
+			}
+		}
+		sort.Strings(keys)
+		for _, k := range keys {
+			so := arrayElemSort(s.mapSort[k])
+			nv := s.fresh("hv:"+lastSeg(k), so)
+			st.Maps[k] = s.define(k, s.mapSort[k], fmt.Sprintf("(store %s %s %s)", st.Maps[k], ref, nv))
+		}
+		oldTop := s.top(st)
+		nt := s.fresh("TOP", "Int")
+		s.assume(st, fmt.Sprintf("(>= %s %s)", nt, oldTop))
+		st.Maps["TOP"] = nt
 		return
 	}
 	pt, ok := t.Underlying().(*types.Pointer)
@@ -679,10 +695,32 @@ func (fr *frame) atAsserts(key string, site *ssa.Call, args []TV, c *ssa.CallCom
 			}
 		}
 		blk := site.Block()
-		env.local = func(name string) (TV, bool) { return fr.lookupLocalBefore(name, blk, site, st) }
+		env.local = func(name string) (TV, bool) {
+			// parameters and captured variables of an inlined closure
+			if !fr.isTop {
+				for _, p := range fr.fn.Params {
+					if p.Name() == name {
+						return fr.val(p, st), true
+					}
+				}
+				for _, fv := range fr.fn.FreeVars {
+					if fv.Name() == name {
+						if l, ok := fr.locs[fv]; ok {
+							return fr.load(st, l), true
+						}
+						return fr.val(fv, st), true
+					}
+				}
+			}
+			return fr.lookupLocalBefore(name, blk, site, st)
+		}
 		g := s.evalBool(env, at.C.E)
-		fr.atCount[at.C.Label]++
-		s.addObl(&Obligation{Name: fmt.Sprintf("%s#at:%s:%s@%d", shortKey(FuncKey(s.Top)), at.Callee, at.C.Label, fr.atCount[at.C.Label]), Props: fr.propsOf(at.C), Kind: "call-site-assert", Label: at.C.Label, Goal: fmt.Sprintf("(=> %s %s)", st.Guard, g), Src: at.C.Src})
-		fr.atHit[at.C.Label] = true
+		top := fr
+		for top.parent != nil {
+			top = top.parent
+		}
+		top.atCount[at.C.Label]++
+		s.addObl(&Obligation{Name: fmt.Sprintf("%s#at:%s:%s@%d", shortKey(FuncKey(s.Top)), at.Callee, at.C.Label, top.atCount[at.C.Label]), Props: fr.propsOf(at.C), Kind: "call-site-assert", Label: at.C.Label, Goal: fmt.Sprintf("(=> %s %s)", st.Guard, g), Src: at.C.Src})
+		top.atHit[at.C.Label] = true
 	}
 }
